@@ -211,6 +211,35 @@ func sameW(a, b *T) {
 
 // ---- arithmetic ----
 
+// KnownZero returns a mask of bits of t that are certainly zero.
+func KnownZero(t *T) uint64 {
+	switch t.Op {
+	case OpConst:
+		return ^t.Val & mask(t.W)
+	case OpConcat:
+		var m uint64
+		for _, a := range t.Args {
+			m = m<<uint(a.W) | KnownZero(a)
+		}
+		return m
+	case OpAnd:
+		var m uint64
+		for _, a := range t.Args {
+			m |= KnownZero(a)
+		}
+		return m
+	case OpOr, OpXor:
+		m := mask(t.W)
+		for _, a := range t.Args {
+			m &= KnownZero(a)
+		}
+		return m
+	case OpIte:
+		return KnownZero(t.Args[1]) & KnownZero(t.Args[2])
+	}
+	return 0
+}
+
 func Add(a, b *T) *T {
 	sameW(a, b)
 	if a.W == -1 {
@@ -224,6 +253,12 @@ func Add(a, b *T) *T {
 	}
 	if b.IsConst() && b.Val == 0 {
 		return a
+	}
+	// no carries possible: addition is a bitwise or (keeps concat structure)
+	if a.Op == OpConcat && (b.IsConst() || b.Op == OpConcat) {
+		if ^KnownZero(a)&^KnownZero(b)&mask(a.W) == 0 {
+			return Or(a, b)
+		}
 	}
 	// (x + c1) + c2
 	if b.IsConst() && a.Op == OpAdd && a.Args[1].IsConst() {
